@@ -118,6 +118,8 @@ type VC struct {
 	ghostAppend map[*ssa.Phi]bool
 	replay      []ReplayTerm
 	useRoot     bool
+	revealed    map[string]bool // opaque spec functions revealed in this VC
+	revealAll   bool
 	localAllocs map[*ssa.Alloc]string // non-escaping struct allocations -> private component space
 	writeRoot   ssa.Value // allocation the current store goes to (nil: unknown / pre-existing memory)
 	nonFresh    map[int]map[string]bool   // block -> comps written at possibly pre-existing references
